@@ -24,7 +24,9 @@ pub struct GInc {
     /// the statement sits inside a block instead of at top level
     pub nested: bool,
     /// which block: 0 `let ... in { }`, 1 a defset body, 2 a foreach body, 3 the then-branch
-    /// and 4 the else-branch of an `if`
+    /// and 4 the else-branch of an `if`, 5 a foreach whose iterator the analysis cannot type
+    /// (`!cond`), 6 a defset whose element class does not exist - legal or at least parseable
+    /// blocks whose body is there all the same
     #[serde(default)]
     pub wrap: u8,
 }
@@ -72,6 +74,8 @@ impl Graph {
                     2 => s.push_str("foreach w = [1, 2] in { "),
                     3 => s.push_str("if 1 then { "),
                     4 => s.push_str("if 0 then { } else { "),
+                    5 => s.push_str("foreach w = !cond(1: [1, 2]) in { "),
+                    6 => s.push_str(&format!("defset list<NoSuchClass{n}> S{n} = {{ ")),
                     _ => s.push_str("let z = 1 in { "),
                 }
             }
@@ -233,7 +237,7 @@ fn gen_ladder(rng: &mut Rng, allow_nested: bool) -> Graph {
         let sides: Vec<String> = ["a", "b", "c"][..if rng.chance(1, 5) { 3 } else { 2 }].iter().map(|s| format!("{s}{i}.td")).collect();
         let li = files.iter().position(|f| f.path == format!("/w/{}", rail(i))).unwrap();
         for sname in &sides {
-            files[li].includes.push(GInc { name: sname.clone(), nested: nested && rng.chance(1, 3), wrap: rng.below(5) as u8 });
+            files[li].includes.push(GInc { name: sname.clone(), nested: nested && rng.chance(1, 3), wrap: rng.below(7) as u8 });
         }
         let last = i + 1 == rungs;
         for sname in &sides {
@@ -343,7 +347,7 @@ pub fn gen_graph(rng: &mut Rng, allow_nested: bool) -> Graph {
                     p[p.rfind('/').unwrap() + 1..].to_string()
                 }
             };
-            files[i].includes.push(GInc { name, nested: nested_graph && rng.chance(1, 2), wrap: rng.below(5) as u8 });
+            files[i].includes.push(GInc { name, nested: nested_graph && rng.chance(1, 2), wrap: rng.below(7) as u8 });
         }
     }
     // A third of the graphs get a second root selection after the disk changed: a file that
